@@ -773,10 +773,18 @@ def main():
         "edits x 7 core commands on 2 victims; thorough: all edits x 3 rotating variants + all 32 variants on 2 edits per victim, "
         "and every byte position (one bit each) of two manifests",
     )
+    sweep(run, run.tier)
+    if run.only is not None and run.evaluations == 0:
+        # the replay command carries no tier: a case that only exists in the other tier is looked for there
+        sweep(run, "quick" if run.tier == "thorough" else "thorough")
+    run.finish()
+
+
+def sweep(run, tier):
     table = command_table()
     names = list(table)
-    thorough = run.tier == "thorough"
-    for wid, tree, steps in world_specs(run.tier):
+    thorough = tier == "thorough"
+    for wid, tree, steps in world_specs(tier):
         if run.only is not None and not run.only.startswith(wid + "/"):
             continue
         try:
@@ -843,7 +851,6 @@ def main():
         set_tz(None)
         shutil.rmtree(world.base, ignore_errors=True)
         shutil.rmtree(world.pristine, ignore_errors=True)
-    run.finish()
 
 
 if __name__ == "__main__":
